@@ -8,6 +8,12 @@ CLAIMED = {
          "7.C01", "Coq proof (induction over keys/lists) + extracted-model correspondence"),
  "C02": ("Coq theorems: scanner soundness/completeness for the whole PEP 440 surface grammar, Version(str(v)) = v for unbounded components, public/base_version, canonicalize_version complete invariant/idempotent/reparse/pass-through; tied to the code by differential runs on spellings and mutations",
          "7.C02", "Coq proof (parser soundness+completeness, round trip) + extracted-model correspondence"),
+ "C03": ("Coq theorem: for every operator and every admitted version form, the string-level model of Specifier.contains (the _compare_* methods as written: re-parsing of public/base strings, canonicalize_version, _version_split/_pad_version/_version_join) equals the declarative PEP 440 operator semantics on structured versions; tied to the code by differential runs of contains() on operator x spelling x related candidates, against both the code model and the declarative semantics",
+         "7.C03", "Coq proof (model = declarative semantics) + extracted-model correspondence"),
+ "C04": ("Coq theorems: != is the complement of ==, ~= is >= and prefix, equal candidates and local labels are irrelevant for every operator but ===, closure/cover/containment/exclusion laws; plus each law evaluated directly on real Specifier objects for jointly generated related tuples",
+         "7.C04", "Coq proof of the laws on the model + direct law oracles on the implementation"),
+ "C12": ("Coq theorems: soundness of both scanners w.r.t. the PEP 440 grammar (accepted => rendering of a well-formed parse tree; operator/form table), ASCII-only, completeness on greedy-normal-form spellings; the acceptance languages are compared with the implementation over bounded-exhaustive strings on class-representative alphabets and generated/mutated inputs; the remaining completeness half is tested, not proved (stated in the file)",
+         "7.C12", "Coq proof (scanner soundness / gnf-completeness) + bounded-exhaustive correspondence"),
 }
 NA_REASON = "check not built yet in this revision (planned, see DESIGN.md section 7); nothing is claimed"
 checks, na = [], []
